@@ -6,13 +6,13 @@ import MpVerif.C19.Model
 * `copy <s0> <d0> <len>`                  -> `ok`      CopyLink entry
 * `m2m <s0> <slen> <d0> <dlen>`           -> `ok`      Many2Many/One2Many entry
 * `slack <s> <con> <slk>`                 -> `ok`      Range2Slk entry
-* `run`                                   -> `run wellfed=<b> sib=<b> closed=<b> noclash=<b> edges=<n>`
+* `run`                                   -> `run wellfed=<b> topo=<b> sib=<b> closed=<b> noclash=<b> edges=<n>`
 * `con <cell>` / `var <cell>`             -> `<hex>`   delivered name of a constraint / variable-or-objective cell
 * `dvars <cell>..` / `dcons <cell>..`     -> `belowfree=<b> uncounted=<b>`   hypotheses on a set of delivered cells
 * `sf <hex> <hex> ...`                    -> `<b>`     suffixFreeB
 * `np <mode> <colhex|-|0> <rowhex|-|0> <nv> <ndv> <ncon> <nalg> <nobj> <objno> <multi>`
-      -> `none` | `error` | `names ub=<b> V <hex>.. C <hex>.. O <hex>..`   (`-` absent file, `0` empty file)
-* `file <hex>`                            -> `error` | `nread=<n> ub=<b> <hex>..`   names via NameProvider::name(0..nread-1)
+      -> `none` | `error` | `names V <hex>.. C <hex>.. O <hex>..`   (`-` absent file, `0` empty file)
+* `file <hex>`                            -> `error` | `nread=<n> <hex>..`   names via NameProvider::name(0..nread-1)
 No logic here: every answer is a call of a model function. -/
 open MpVerif.C19
 
@@ -41,6 +41,7 @@ def fileArg (s : String) : Option (Option (List Char)) :=
 
 structure DSt where
   init : St := {}
+  roots : List Nat := []
   ops : List Op := []      -- reversed
   fin : St := {}
   E : List Edge := []
@@ -56,7 +57,7 @@ def handle (d : DSt) (ws : List String) : DSt × String :=
   | ["reset"] => ({}, "ok")
   | ["src", c, h] =>
     match c.toNat?, fromHex h with
-    | some c, some nm => ({ d with init := d.init.set c { s := nm, n := 0 } }, "ok")
+    | some c, some nm => ({ d with init := d.init.set c { s := nm, n := 0 }, roots := if nm.isEmpty then d.roots else c :: d.roots }, "ok")
     | _, _ => (d, "bad-op")
   | ["copy", a, b, n] =>
     match a.toNat?, b.toNat?, n.toNat? with
@@ -76,7 +77,7 @@ def handle (d : DSt) (ws : List String) : DSt × String :=
     let E := edges d.init ops
     let R := plainClosure E.length E (plainPairs E)
     ({ d with fin := fin, E := E, R := R },
-     s!"run wellfed={b2s (wellFed d.init ops)} sib={b2s (sibDistinctB E)} closed={b2s (closedB E R)} noclash={b2s (noClashB E R)} edges={E.length}")
+     s!"run wellfed={b2s (wellFed d.init ops)} topo={b2s (topoB d.roots ops)} sib={b2s (sibDistinctB E)} closed={b2s (closedB E R)} noclash={b2s (noClashB E R)} edges={E.length}")
   | ["con", c] =>
     match c.toNat? with
     | some c => (d, toHex (deliveredConName d.fin c))
@@ -105,8 +106,7 @@ def handle (d : DSt) (ws : List String) : DSt × String :=
       | .none => (d, "none")
       | .error => (d, "error")
       | .names o =>
-        let ub := (o.vars ++ o.cons ++ o.objs).any FileName.ub
-        (d, s!"names ub={b2s ub} V {outNames o.vars} C {outNames o.cons} O {outNames o.objs}")
+        (d, s!"names V {outNames o.vars} C {outNames o.cons} O {outNames o.objs}")
     | _, _, _, _, _, _, _, _, _, _ => (d, "bad-op")
   | ["file", h] =>
     match fileArg h with
@@ -116,7 +116,7 @@ def handle (d : DSt) (ws : List String) : DSt × String :=
       | .ok offs =>
         let data := f.getD []
         let l := (List.range (numberRead offs)).filterMap fun k => fileName data offs k
-        (d, s!"nread={numberRead offs} ub={b2s (l.any FileName.ub)} {outNames l}")
+        (d, s!"nread={numberRead offs} {outNames l}")
     | none => (d, "bad-op")
   | _ => (d, "bad-op")
 
